@@ -31,13 +31,20 @@ ASSUMPTIONS = [
 BOUNDS = {'quick': {'times': 2, 'deviating_cells': 2},
           'thorough': {'times': 3, 'deviating_cells': 2}}
 
-VALUES = [0, False, '', [], 1.5, 'x', [1, 2], 'Q']
+VALUES = [0, False, '', [], 1.5, 'x', [1, 2], 'Q', 'Q2', 'LQ']
 FILLER = 'x'
 
 
 def value(v):
-    return 2.5 * units.fg if v == 'Q' else (list(v) if isinstance(v, list)
-                                            else v)
+    if v == 'Q':
+        return 2.5 * units.fg
+    if v == 'Q2':
+        # one base unit raised to a power
+        return 2.0 * units.um ** 2
+    if v == 'LQ':
+        # a list that starts with a plain number and holds a quantity
+        return [0, 2.5 * units.um]
+    return list(v) if isinstance(v, list) else v
 
 
 def tree_shapes():
@@ -358,23 +365,32 @@ def check_columns(cols, paths, rows, times, V, where):
                 return False
             seen.add(p)
             got_cells += [('plain', x) for x in col]
-        qkey = p[:-1] + ((p[-1], 'femtogram'),)
-        if quant:
+        # quantity cells are filed under (name, unit string) - one column
+        # per unit, exponents included
+        ustrs = []
+        for w in quant:
+            if str(w.units) not in ustrs:
+                ustrs.append(str(w.units))
+        for ustr in ustrs:
+            qkey = p[:-1] + ((p[-1], ustr),)
             qcol = cols.get(qkey)
             if qcol is None:
                 V('C18.timeseries', 'column-missing',
-                  f'{where}: no column for quantity {qkey}')
+                  f'{where}: no column for quantity {qkey}; columns '
+                  f'{sorted(map(str, cols))}')
                 return False
             seen.add(qkey)
-            got_cells += [('q', x) for x in qcol]
-        if len(plain) == len(want) or len(quant) == len(want):
+            unit = next(w.units for w in quant if str(w.units) == ustr)
+            got_cells += [(unit, x) for x in qcol]
+        if len(plain) == len(want) or (
+                len(quant) == len(want) and len(ustrs) == 1):
             if len(got_cells) != len(times):
                 V('C18.timeseries', 'column-length',
                   f'{where}: column {p} has {len(got_cells)} cells for '
                   f'{len(times)} times: {got_cells}')
                 return False
             for (kind, g), w in zip(got_cells, want):
-                back = g * units.fg if kind == 'q' else g
+                back = g if kind == 'plain' else g * kind
                 if not same(back, w):
                     V('C18.timeseries', 'cell-differs',
                       f'{where}: column {p} reads {back!r}, emitted {w!r}')
@@ -430,3 +446,7 @@ def replay(case):
     check_history(case['shape'], paths, case['times'],
                   tuple(case['cells']), acc, query_sets(shape, True))
     return [v for exs in acc.viol_examples.values() for v in exs]
+
+
+RULE += (
+    ' Cell values also include a quantity in a squared unit and a list that starts with a number and holds a quantity (one column per unit string, exponents included).')
